@@ -130,13 +130,22 @@ def coqchk_step(pid, res):
 
 
 def ensure_build(timeout=3000):
-    """Incremental full .vo build of the development (no -vos)."""
-    if not os.path.exists(os.path.join(COQ, 'Makefile')):
-        rc, out, _ = sh(['coq_makefile', '-f', '_CoqProject', '-o', 'Makefile'], 120, cwd=COQ)
-        if rc != 0:
-            return False, out
-    rc, out, _ = sh(['make', f'-j{NCPU}'], timeout, cwd=COQ)
-    return rc == 0, out
+    """Incremental full .vo build of the development (no -vos).  Serialised by a file lock so that
+    checks started concurrently do not compile the same file twice at the same time."""
+    import fcntl
+    os.makedirs(WORK, exist_ok=True)
+    with open(os.path.join(WORK, '.build.lock'), 'w') as lk:
+        fcntl.flock(lk, fcntl.LOCK_EX)
+        try:
+            mk = os.path.join(COQ, 'Makefile')
+            if not os.path.exists(mk) or os.path.getmtime(mk) < os.path.getmtime(os.path.join(COQ, '_CoqProject')):
+                rc, out, _ = sh(['coq_makefile', '-f', '_CoqProject', '-o', 'Makefile'], 120, cwd=COQ)
+                if rc != 0:
+                    return False, out
+            rc, out, _ = sh(['make', f'-j{NCPU}'], timeout, cwd=COQ)
+            return rc == 0, out
+        finally:
+            fcntl.flock(lk, fcntl.LOCK_UN)
 
 
 def parse_evals(out: str):
